@@ -14,6 +14,7 @@ func init() {
 	vRegister("VH_C16_MintImport", VH_C16_MintImport)
 	vRegister("VH_C16_Expiry", VH_C16_Expiry)
 	vRegister("VH_C16_LifetimeAgreement", VH_C16_LifetimeAgreement)
+	vRegister("VH_C16_KeyDerivation", VH_C16_KeyDerivation)
 }
 
 // VH_C16_Parse: for any session id (may itself contain '#', brackets and sinful
@@ -333,4 +334,30 @@ func VH_C16_LifetimeAgreement() {
 	ie.RenewLease()
 	vAssert(me.Expiration().Equal(ie.Expiration()), "same-expiry-after-both-ends-resumed-the-session")
 	vCover("lifetime-agreed")
+}
+
+// VH_C16_KeyDerivation: the real deriveSessionKey (HKDF over the claim secret; the
+// engine computes the real HKDF-SHA256 for concrete inputs) depends on the whole
+// secret: secrets that differ in their first character, in their last character,
+// or only beyond the 32nd give different 32-byte keys, and the same secret gives
+// the same key. Together with VH_C16_MintImport (which stubs this function by the
+// full secret text) this is "an importer holding a different secret cannot".
+func VH_C16_KeyDerivation() {
+	VerifHook_deriveSessionKey = nil
+	base := "5ec2e7c0ffee5ec2e7c0ffee5ec2e7c0ffee5ec2e7c0ffee5ec2e7c0ffee5ec2"
+	variants := []string{
+		"6ec2e7c0ffee5ec2e7c0ffee5ec2e7c0ffee5ec2e7c0ffee5ec2e7c0ffee5ec2",
+		"5ec2e7c0ffee5ec2e7c0ffee5ec2e7c0ffee5ec2e7c0ffee5ec2e7c0ffee5ec3",
+		"5ec2e7c0ffee5ec2e7c0ffee5ec2e7c00000000000000000000000000000000a",
+		"5ec2e7c0ffee5ec2e7c0ffee5ec2e7c0",
+	}
+	k0, err := deriveSessionKey(base, 32)
+	vAssert(err == nil && len(k0) == 32, "key-derived")
+	again, _ := deriveSessionKey(base, 32)
+	vAssert(string(again) == string(k0), "same-secret-same-key")
+	which := vChoice("other_secret", len(variants))
+	k1, err1 := deriveSessionKey(variants[which], 32)
+	vAssert(err1 == nil && len(k1) == 32, "key-derived")
+	vAssert(string(k1) != string(k0), "a-different-secret-gives-a-different-key")
+	vCover("keys-compared")
 }
